@@ -96,6 +96,12 @@ CHECKS = {
         note="Trusted: Lean kernel; harness; POSIX path resolution (a relative path without '..' components stays below the directory it is joined to; no symlinks); lsst.resources URI parsing is exercised but not modelled — names containing '%' are decided by the filesystem oracle only. Disassembled composites are not produced by any storage class usable in this sandbox; the model covers them through multiple records per dataset id.",
         design="DESIGN.md §5 C09",
     ),
+    "C19": dict(
+        technique="Lean 4 proof (keyed tables merged with the policy the code implements; exactness, conflict refusal and idempotence of the strictly merged parts for all tables; refutation witnesses for the two policies that deviate from the property) + correspondence of Butler.export / import_ / transfer_from into empty, compatible, pre-populated and conflicting targets, applied twice + source-versus-target oracle",
+        text="strict_exact, strict_conflict_refused, strict_idempotent (dataset types, datasets by UUID, one dataset per type / data ID / run, TAGGED memberships), keep_preserves_target, keep_exact_partial (dimension records arrive only where the target has none — full statement false: keep_conflict_kept, C19-a), over_exact (chain definitions; over_conflict_redefines, C19-b), calib_exact, calib_disjoint, calib_repeat_refused, and the repository-level import_exact, import_conflict_refused, import_slot_conflict_refused, import_idempotent are proved in Lean 4 for all tables. The model is compared with real exports of random selections of seeded source repositories imported into seven kinds of target (twice each), and transfer_from in copy / hardlink / symlink / relsymlink mode; the target's observable state (ids, types, data IDs, runs, contents read back, TAGGED memberships, validity ranges, chains, dimension records) is compared with the source's for the selection and with itself before a repetition or refusal.",
+        note="Partial: conflicting dimension records are kept (C19-a) and existing chains redefined (C19-b) — known findings with kernel-checked witnesses; registrations of dataset types / collections made before a refused import are outside the import's transaction and not modelled; quantum-backed source butlers are not constructible here. Trusted: Lean kernel; harness; YAML export format produced and consumed by the same code.",
+        design="DESIGN.md §5 C19",
+    ),
     "C10": dict(
         technique="Lean 4 proof (exact state equations for purge over the registry+datastore model, corollaries of the C02 invariants) + history correspondence on a real Butler with existence probes of every dataset + set oracle",
         text="purge_exact (purge is always accepted and leaves exactly the old tables / datastore records / artifacts minus the targets), purge_members (membership of every collection = old minus targets), purge_others_untouched, purge_targets_gone, orphan_refused (the registry refuses to forget a dataset a datastore still holds, changing nothing), purge_inv, exists_flags_consistent, extDelete_flags are proved in Lean 4. The model is compared with a real Butler on seeded histories mixing puts, tagging, certification, chaining, the three prune modes, registry.removeDatasets, removeRuns and external deletion of artifacts; after every step exists(full_check) / _exists_many / stored / query membership / directory listing of every dataset ever created are compared with the model and with the harness's own sets.",
